@@ -705,6 +705,7 @@ def i11(e, C, seed=0, builder=None):
         except Exception:
             continue            # reachability of the child itself is clause I9
         built += 1
+        tags = []
         try:
             with warnings.catch_warnings():
                 warnings.simplefilter("ignore")
@@ -812,6 +813,21 @@ def i13(e, C, seed=0, builder=None):
                                   f"'{m1}' and '{m2}'")
             except Exception:
                 ok, det = True, ""
+            if ok and label == "required":
+                # exactly one: an instance with NONE of the group - the members left out, or spelled out as None - is refused too
+                for spelled in [None] + [m_ for m_ in g if m_ in sd]:
+                    kw0 = {n: v for n, v in kw.items() if n not in g}
+                    if spelled:
+                        kw0[spelled] = None
+                    try:
+                        with warnings.catch_warnings():
+                            warnings.simplefilter("ignore")
+                            C(*list(x1), **kw0)
+                        ok, det = False, (f"{C.__name__} declares the required group {g}, yet the constructor builds an instance holding none of its members"
+                                          + (f" ('{spelled}' given as None)" if spelled else ""))
+                        break
+                    except Exception:
+                        pass
             used = set()
             try:
                 ex1, ex2 = expr(e, x1, used), expr(e, x2, used)
